@@ -31,6 +31,32 @@ func (x *Engine) nilCheck(fr *Frame, st *State, v Val, what string, pos token.Po
 	x.mayPanic(fr, st, fmt.Sprintf("(= %s 0)", v.T), "nil["+what+"]@"+posOf(x.prog, pos))
 }
 
+// plainAccess: in thread-modular mode a location declared shared may only be accessed through sync/atomic; a plain
+// read or write of it is a data race.
+func (x *Engine) plainAccess(fr *Frame, st *State, a *Addr, how string, pos token.Pos) {
+	if !x.conc || a == nil || a.Priv {
+		return
+	}
+	var differs []string
+	for _, sa := range x.sharedAddrs {
+		if sa.Key != a.Key {
+			continue
+		}
+		d := fmt.Sprintf("(not (= %s %s))", a.Ref, sa.Ref)
+		if a.Idx != "" && sa.Idx != "" {
+			d = fmt.Sprintf("(or %s (not (= %s %s)))", d, a.Idx, sa.Idx)
+		}
+		differs = append(differs, d)
+	}
+	if len(differs) == 0 {
+		return
+	}
+	p := posOf(x.prog, pos)
+	x.ordinals["race:"+how]++
+	goal := "(and " + strings.Join(differs, " ") + ")"
+	x.obligeNoAssume(st, "race", fmt.Sprintf("plain-%s-of-shared#%d", how, x.ordinals["race:"+how]), goal, "a location declared shared is accessed without sync/atomic ("+how+" of "+a.Key+" at "+p+")", p)
+}
+
 func ptrElem(t types.Type) types.Type {
 	return t.Underlying().(*types.Pointer).Elem()
 }
@@ -42,6 +68,7 @@ func (x *Engine) load(fr *Frame, st *State, p Val, pos token.Pos) Val {
 		return *p.Static
 	}
 	if p.Addr != nil {
+		x.plainAccess(fr, st, p.Addr, "read", pos)
 		v := Val{T: x.name("ld", x.sortOf(et), x.loadAddr(st, p.Addr)), Typ: et}
 		x.assume(st, x.wf(et, v.T, st))
 		return v
@@ -72,6 +99,7 @@ func (x *Engine) store(fr *Frame, st *State, p Val, v Val, pos token.Pos) {
 		*p.Static = v
 	}
 	if p.Addr != nil {
+		x.plainAccess(fr, st, p.Addr, "write", pos)
 		x.storeAddr(st, p.Addr, v.T)
 		return
 	}
